@@ -47,6 +47,8 @@ class SimSocket:
         if not self.queue:
             import socket
             from pycomm3.exceptions import CommError
+            if CURRENT.get("raw_timeout"):
+                raise socket.timeout("timed out")    # a transport that lets the OS error through (the driver accepts any exception here)
             raise CommError("socket connection broken") from socket.timeout("timed out")   # what the real Socket.receive raises
         return self.queue.pop(0)
 
@@ -65,6 +67,7 @@ def install(target, budget=20_000):
     CURRENT["budget"] = budget
     CURRENT["drop"] = set()
     CURRENT["unit_sends"] = 0
+    CURRENT["raw_timeout"] = False
     cd.Socket = SimSocket
 
 
